@@ -509,14 +509,14 @@ m('nil3-import-null-element', 'NIL3', 'DB.ImportCollection', ('json.go',
 			return errors.New("invalid document: null")
 		}
 ''', ''''''))
-m('key11-second-unixnano-site', 'KEY11', 'internal.orderedCodePrimitive/time key', ('internal/code.go',
+m('key11-second-unixnano-site', 'KEY11', 'time key from UnixNano #2', ('internal/code.go',
    """	actualVal := getEncodeValue(value)
 	if includeType {""", """	actualVal := getEncodeValue(value)
 	if t, isTime := value.(time.Time); isTime {
 		actualVal = uint64(t.UnixNano() / 1000) // microseconds are enough
 	}
 	if includeType {"""))
-m('cod4-second-json-site', 'COD4', 'internal.renameMapKeys/document values', ('internal/encoding.go',
+m('cod4-second-json-site', 'COD4', 'document values re-encoded through encoding/json #2', ('internal/encoding.go',
    """	if renamed, isMap := renameValue(m, rv.Type()).(map[string]interface{}); isMap {
 		return renamed
 	}
